@@ -186,11 +186,30 @@ def _zero_latency_sccs(spec) -> List[set]:
     return [s for s in nx.strongly_connected_components(G) if len(s) > 1]
 
 
+def _instantaneous(spec, scc) -> bool:
+    """A zero-latency cycle is *instantaneous in time* when some step on it starts the moment its input arrives: an advance=True
+    node, or a blocking connection inside the cycle (a blocked step starts exactly at the arrival of the message it waits for)."""
+    if any(spec["nodes"][i]["advance"] for i in scc):
+        return True
+    for c in spec["conns"]:
+        if c["blocking"] and c["src"] in scc and c["dst"] in scc:
+            return True
+    return False
+
+
 def _repair(spec):
-    """Make a generated spec satisfy rule 7 of S (no advance node on a zero-latency cycle)."""
-    for scc in _zero_latency_sccs(spec):
-        for i in scc:
-            spec["nodes"][i]["advance"] = False
+    """Make a generated spec satisfy rule 7 of S: no instantaneous zero-latency cycle (give one node on it a positive delay)."""
+    for _ in range(20):
+        bad = [scc for scc in _zero_latency_sccs(spec) if _instantaneous(spec, scc)]
+        if not bad:
+            return
+        for scc in bad:
+            i = sorted(scc)[0]
+            nd = spec["nodes"][i]
+            per = 1.0 / nd["rate"]
+            nd["dist"] = ["det", _r6(per * 0.125)]
+            if nd.get("delay") is not None:
+                nd["delay"] = max(nd["delay"], nd["dist"][1])
 
 
 def in_S(spec) -> Optional[str]:
@@ -236,8 +255,8 @@ def in_S(spec) -> Optional[str]:
     if not nx.is_connected(U):
         return "rule6: not weakly connected"
     for scc in _zero_latency_sccs(spec):
-        if any(spec["nodes"][i]["advance"] for i in scc):
-            return "rule7: advance node on a zero-latency cycle"
+        if _instantaneous(spec, scc):
+            return "rule7: zero-latency cycle that is instantaneous in time (advance node or blocking connection on it)"
     if bool(spec.get("open_loop")) != (len(reachable_from_sup(spec)) < n):
         return "open_loop flag wrong"
     seen = set()
@@ -274,3 +293,28 @@ def spec_digest(spec) -> str:
     import json
 
     return hashlib.sha256(json.dumps(spec, sort_keys=True).encode()).hexdigest()[:16]
+
+
+def add_leaves(spec, rng: random.Random, max_leaves: int = 2) -> int:
+    """Adds consumer-only ("sink") nodes: they are never ancestors of a supervisor step, which is what prune on/off is about."""
+    n0 = len(spec["nodes"])
+    k = rng.randint(1, max_leaves)
+    for j in range(k):
+        i = len(spec["nodes"])
+        src = rng.randrange(n0)
+        mult = 0.5 if (k >= 2 and j == 0) else (2 if (k >= 2 and j == 1) else rng.choice([0.5, 1, 1, 2]))
+        rate = min(max(round(spec["nodes"][src]["rate"] * mult, 3), min(x["rate"] for x in spec["nodes"][:n0])), 3 * min(x["rate"] for x in spec["nodes"][:n0]))
+        if max(rate, spec["nodes"][src]["rate"]) / min(rate, spec["nodes"][src]["rate"]) > 3:
+            rate = spec["nodes"][src]["rate"]
+        per = 1.0 / rate
+        if k >= 2 and j == 0:
+            d = rng.choice([["det", _r6(per * 1.5)], ["mix", [_r6(per * 0.3), _r6(per * 1.55)], [0.4, 0.6]]])  # long-running sink
+        elif k >= 2 and j == 1:
+            d = ["det", _r6(per * rng.choice([0.02, 0.1]))]  # short sink: different completion order than start order
+        else:
+            d = rng.choice([["det", _r6(per * 0.05)], ["det", _r6(per * 0.9)], ["mix", [_r6(per * 0.1), _r6(per * 1.5)], [0.6, 0.4]], ["det", _r6(per * 1.4)]])
+        spec["nodes"].append(dict(name=f"n{i}", rate=rate, dist=d, delay=_r6(min(dist_max(d), per)), sched=rng.choice(["F", "P"]), advance=False, jit=True))
+        perc = min(per, 1.0 / spec["nodes"][src]["rate"])
+        spec["conns"].append(dict(dst=i, src=src, blocking=False, skip=False, jitter="L", window=rng.randint(1, 3), dist=["det", _r6(perc * rng.choice([0.0, 0.2]))], delay=None))
+    spec["open_loop"] = len(reachable_from_sup(spec)) < len(spec["nodes"])
+    return k
